@@ -34,6 +34,19 @@ FUNCS = [
     # `self.<attr>` and returns self becomes a function returning the new record (O = a Chunk)
     # T = a str-or-list argument (`order`: "C", "F" or an explicit list of axes)
     ("MkOrder", "array.py", "mk_order", "TL"),
+    # the byte-moving primitives of the two CPU buffer kinds: B = the buffer object (a record with the attribute `buffer`, a list of
+    # bytes), Y = a bytes-like argument (a list of bytes); a method that assigns to a slice of `self.buffer` (or of a bytes argument)
+    # returns the new buffer object (the new bytes)
+    ("NpUpdateFromNative", "context_cpu.py", "BufferNumpy.update_from_native", "BIYII"),
+    ("NpToNative", "context_cpu.py", "BufferNumpy.to_native", "BII"),
+    ("NpCopyToNative", "context_cpu.py", "BufferNumpy.copy_to_native", "BYIII"),
+    ("NpUpdateFromBuffer", "context_cpu.py", "BufferNumpy.update_from_buffer", "BIY"),
+    ("NpToBytearray", "context_cpu.py", "BufferNumpy.to_bytearray", "BII"),
+    ("BaUpdateFromNative", "context_cpu.py", "BufferByteArray.update_from_native", "BIYII"),
+    ("BaToNative", "context_cpu.py", "BufferByteArray.to_native", "BII"),
+    ("BaCopyToNative", "context_cpu.py", "BufferByteArray.copy_to_native", "BYIII"),
+    ("BaUpdateFromBuffer", "context_cpu.py", "BufferByteArray.update_from_buffer", "BIY"),
+    ("BaToBytearray", "context_cpu.py", "BufferByteArray.to_bytearray", "BII"),
     ("ChunkSize", "context.py", "Chunk.size", "O"),
     ("ChunkOverlaps", "context.py", "Chunk.overlaps", "OO"),
     ("ChunkMerge", "context.py", "Chunk.merge", "OO"),
@@ -88,6 +101,8 @@ class Tr:
         if isinstance(x, ast.Attribute):
             if isinstance(x.value, ast.Name) and x.attr in OBJ_FIELDS and self.kind_of(x.value.id) == "O":
                 return f"{x.value.id}.{x.attr}_"
+            if isinstance(x.value, ast.Name) and x.attr == "buffer" and self.kind_of(x.value.id) == "B":
+                return f"{x.value.id}.buffer_"
             raise Unsupported("attribute " + x.attr)
         if isinstance(x, ast.UnaryOp):
             if isinstance(x.op, ast.USub):
@@ -125,7 +140,10 @@ class Tr:
             return "(" + " && ".join(parts) + ")"
         if isinstance(x, ast.Subscript):
             if isinstance(x.slice, ast.Slice):
-                raise Unsupported("slice")
+                sl = x.slice
+                if sl.step is not None or sl.lower is None or sl.upper is None:
+                    raise Unsupported("slice without both bounds / with a step")
+                return f"(Py.slice {self.e(x.value)} {self.e(sl.lower)} {self.e(sl.upper)})"
             return f"(Py.get {self.e(x.value)} {self.e(x.slice)})"
         if isinstance(x, ast.ListComp):
             return self.comp(x.elt, x.generators)
@@ -138,6 +156,8 @@ class Tr:
             if x.keywords:
                 raise Unsupported("keyword arguments")
             if isinstance(f, ast.Attribute):
+                if f.attr == "copy" and not x.args:
+                    return self.e(f.value)          # a copy of an immutable list is the list
                 if f.attr == "index" and len(x.args) == 1:
                     return f"(Py.index {self.e(f.value)} {self.e(x.args[0])})"
                 raise Unsupported("method " + f.attr)
@@ -154,7 +174,7 @@ class Tr:
                 return f"(Py.range3 {self.e(args[0])} {self.e(args[1])} {self.e(args[2])})"
             if n == "reversed" and len(args) == 1:
                 return f"(List.reverse {self.e(args[0])})"
-            if n in ("tuple", "list") and len(args) == 1:
+            if n in ("tuple", "list", "bytearray", "bytes") and len(args) == 1:
                 if isinstance(args[0], ast.GeneratorExp):
                     return self.comp(args[0].elt, args[0].generators)
                 return self.e(args[0])
@@ -198,6 +218,21 @@ class Tr:
             if isinstance(s.value, ast.Name) and self.kind_of(s.value.id) == "T":
                 return [ind + f"return (Py.asList {s.value.id})"]
             return [ind + f"return {self.e(s.value)}"]
+        if isinstance(s, ast.Assign) and len(s.targets) == 1 and isinstance(s.targets[0], ast.Subscript) \
+                and isinstance(s.targets[0].slice, ast.Slice):
+            tg, sl = s.targets[0], s.targets[0].slice
+            if sl.step is not None or sl.lower is None or sl.upper is None:
+                raise Unsupported("slice assignment without both bounds / with a step")
+            lo, hi, rhs = self.e(sl.lower), self.e(sl.upper), self.e(s.value)
+            if isinstance(tg.value, ast.Attribute) and isinstance(tg.value.value, ast.Name) and tg.value.attr == "buffer" \
+                    and self.kind_of(tg.value.value.id) == "B":
+                o = tg.value.value.id
+                self.mutated.add(o)
+                return [ind + f"{o} := {{ {o} with buffer_ := Py.setslice {o}.buffer_ {lo} {hi} {rhs} }}"]
+            if isinstance(tg.value, ast.Name) and self.kind_of(tg.value.id) == "Y":
+                self.mutated.add(tg.value.id)
+                return [ind + f"{tg.value.id} := Py.setslice {tg.value.id} {lo} {hi} {rhs}"]
+            raise Unsupported("slice assignment target")
         if isinstance(s, ast.Assign) and len(s.targets) == 1 and isinstance(s.targets[0], ast.Attribute):
             tg = s.targets[0]
             if isinstance(tg.value, ast.Name) and tg.attr in OBJ_FIELDS and self.kind_of(tg.value.id) == "O":
@@ -232,13 +267,17 @@ class Tr:
         raise Unsupported("statement " + type(s).__name__)
 
     def lean(self, lname):
-        ty = {"I": "Int", "L": "List Int", "O": "Py.Obj", "T": "Py.StrOrList"}
-        objs = [a.arg for a, k in zip(self.fn.args.args, self.kinds) if k == "O"]
-        params = " ".join(f"({a.arg + ('0' if k == 'O' else '')} : {ty[k]})" for a, k in zip(self.fn.args.args, self.kinds))
+        ty = {"I": "Int", "L": "List Int", "O": "Py.Obj", "T": "Py.StrOrList", "B": "Py.Buf", "Y": "List UInt8"}
+        objs = [a.arg for a, k in zip(self.fn.args.args, self.kinds) if k in "OBY"]
+        params = " ".join(f"({a.arg + ('0' if k in 'OBY' else '')} : {ty[k]})" for a, k in zip(self.fn.args.args, self.kinds))
         if len(self.fn.args.args) != len(self.kinds) or self.fn.args.vararg or self.fn.args.kwarg or self.fn.args.defaults:
             raise Unsupported("signature changed")
         body = [f"  let mut {o} := {o}0" for o in objs] + self.block(self.fn.body, "  ")
         last = self.fn.body[-1]
+        if not self.raises and not any(isinstance(n, ast.Return) for n in ast.walk(self.fn)):
+            if len(self.mutated) != 1:
+                raise Unsupported("a procedure that changes none or several of its arguments")
+            body.append(f"  return {next(iter(self.mutated))}")
         if self.raises:
             if not isinstance(last, ast.Return):
                 body.append("  pure ()")
@@ -263,7 +302,7 @@ def find_function(tree, name):
         body = cls[0].body
         init = [n for n in body if isinstance(n, ast.FunctionDef) and n.name == "__init__"]
         attrs = sorted({t.attr for n in ast.walk(init[0]) if isinstance(n, ast.Assign) for t in n.targets if isinstance(t, ast.Attribute)}) if init else []
-        if attrs != sorted(OBJ_FIELDS):
+        if cname == "Chunk" and attrs != sorted(OBJ_FIELDS):
             raise Unsupported(f"attributes of {cname} are {attrs}, the record has {sorted(OBJ_FIELDS)}")
     for n in body:
         if isinstance(n, ast.FunctionDef) and n.name == name:
